@@ -100,8 +100,19 @@ class ExprGen:
             if r.random() < 0.5:
                 return {"Fn::Sub": sub_text(r, names)}
             loc = {}
-            for _ in range(r.randrange(0, 3)):
-                loc[r.choice(["Loc", "Env", "Name", "Other"])] = self.str_expr(d + 1)
+            for _ in range(r.randrange(0, 4)):
+                key = r.choice(["Loc", "Env", "Name", "Other"])
+                if loc and r.random() < 0.35:
+                    # a variable whose value mentions the *name* of another variable of the same map: the map's
+                    # values are resolved against the template parameters, never against each other
+                    other = r.choice(list(loc))
+                    loc[key] = r.choice([{"Ref": other}, {"Fn::Sub": "${" + other + "}!"}, {"Fn::Join": ["-", ["v", {"Ref": other}]]}])
+                else:
+                    loc[key] = self.str_expr(d + 1)
+            if loc and r.random() < 0.5:
+                items = list(loc.items())
+                r.shuffle(items)
+                loc = dict(items)
             return {"Fn::Sub": [sub_text(r, names + list(loc)), loc]}
         if k == 9:
             self.note("Fn::Base64")
